@@ -380,7 +380,9 @@ func c14Stream(o *Out, rng *rand.Rand, n int) {
 		}
 	}
 	// malformed client entries
-	for _, bad := range []string{"", "A", "AZ206", "AZ20600", "-AZ2060", "AZ2060-", "AZ2060\x00", "\x00", "AZ 2060", "ＡＺ", "é2060", "AZ2060AZ2060", strings.Repeat("A", 20)} {
+	for _, bad := range []string{"", "A", "AZ206", "AZ20600", "-AZ2060", "AZ2060-", "AZ2060\x00", "\x00", "AZ 2060", "ＡＺ", "é2060", "AZ2060AZ2060", strings.Repeat("A", 20),
+		// the way a client ID appears inside a peer ID (dashes around it), and other lengths around 6 with dashes
+		"-AZ2060-", "-UT2300-", "--------", "-AZ206-", "-AZ20600-", "--AZ2060", "AZ2060--", "-\x00\x01\x02\x03\x04\x05-", "-AZ2060-ABCDEFGHIJKL", "-AZ20"} {
 		for _, y := range []bool{false, true} {
 			c14Case(o, "client-malformed", 0, y, []string{bad}, nil, randProbe())
 			c14Case(o, "client-malformed", 0, y, nil, []string{bad}, randProbe())
@@ -400,6 +402,19 @@ func c14Stream(o *Out, rng *rand.Rand, n int) {
 		c14Case(o, "torrent-both", 1, i%2 == 0, []string{hex.EncodeToString(h1)}, []string{hex.EncodeToString(h2)}, h1)
 		c14Case(o, "torrent-both", 1, i%2 == 1, []string{hex.EncodeToString(h1)}, []string{hex.EncodeToString(h1)}, h1)
 		c14Case(o, "torrent-both-malformed", 1, i%2 == 0, []string{c14BadHash(rng, h1)}, []string{hex.EncodeToString(h2)}, h1)
+	}
+
+	// ---- LARGE lists: membership must be decided on the whole key.  A store keyed by a digest of the key (a 32-bit hash,
+	// a truncated key) approves or blocks keys that are not listed; with N listed keys and M probes such a collision shows
+	// with probability about N*M/2^bits - the sizes below find digests of up to ~35 bits.  A wrong verdict is narrowed down
+	// (bisection over the list) to ONE listed key and ONE probe, and that pair is judged as an ordinary small case.
+	{
+		nl, np := 150000, 150000
+		if n >= 2000 {
+			nl, np = 400000, 400000
+		}
+		c14Bulk(o, rng, 1, nl, np)
+		c14Bulk(o, rng, 0, nl/3, np)
 	}
 
 	// ---- generated configurations
@@ -492,4 +507,127 @@ func c14Stream(o *Out, rng *rand.Rand, n int) {
 			per("torrent-"+kind, 1, wl, bl, c14TorrentProbes(rng, pick, list[:1]), lim)
 		}
 	}
+}
+
+
+// c14Bulk: see c14Stream.  which 1: torrent approval over random infohashes; which 0: client approval over random 6-byte IDs.
+func c14Bulk(o *Out, rng *rand.Rand, which, nl, np int) {
+	listed := map[string]bool{}
+	var list []string
+	key := func() []byte {
+		if which == 1 {
+			b := make([]byte, 20)
+			rng.Read(b)
+			return b
+		}
+		b := make([]byte, 6)
+		rng.Read(b)
+		return b
+	}
+	text := func(k []byte) string {
+		if which == 1 {
+			return hex.EncodeToString(k)
+		}
+		return string(k)
+	}
+	for len(list) < nl {
+		k := key()
+		if !listed[string(k)] {
+			listed[string(k)] = true
+			list = append(list, text(k))
+		}
+	}
+	verdict := func(h middleware.Hook, k []byte) bool { // true = the announce passes the hook
+		req := &bittorrent.AnnounceRequest{}
+		if which == 1 {
+			req.InfoHash = bittorrent.InfoHashFromBytes(k)
+		} else {
+			pid := append(append([]byte{'-'}, k...), []byte("-abcdefghijkl")...)
+			req.Peer.ID = bittorrent.PeerIDFromBytes(pid)
+		}
+		_, err := h.HandleAnnounce(context.Background(), req, &bittorrent.AnnounceResponse{})
+		return err == nil
+	}
+	probeBytes := func(k []byte) []byte {
+		if which == 1 {
+			return k
+		}
+		return append(append([]byte{'-'}, k...), []byte("-abcdefghijkl")...)
+	}
+	found := 0
+	for _, white := range []bool{true, false} {
+		var wl, bl []string
+		if white {
+			wl = list
+		} else {
+			bl = list
+		}
+		h, err, _ := c14Build(which, false, wl, bl)
+		if err != nil || h == nil {
+			// a list of well-formed entries must be accepted: judge the first entry alone
+			c14Case(o, "bulk-refused", which, false, firstOf(wl), firstOf(bl), probeBytes(key()))
+			continue
+		}
+		for i := 0; i < np && found < 3; i++ {
+			k := key()
+			if listed[string(k)] {
+				continue
+			}
+			if verdict(h, k) == white { // an unlisted key approved by a whitelist / blocked by a blacklist
+				// narrow the list down to one entry
+				lo, hi := 0, len(list)
+				for hi-lo > 1 {
+					mid := (lo + hi) / 2
+					var w2, b2 []string
+					if white {
+						w2 = list[lo:mid]
+					} else {
+						b2 = list[lo:mid]
+					}
+					h2, err2, _ := c14Build(which, false, w2, b2)
+					if err2 == nil && h2 != nil && verdict(h2, k) == white {
+						hi = mid
+					} else {
+						lo = mid
+					}
+				}
+				var w1, b1 []string
+				if white {
+					w1 = list[lo:hi]
+				} else {
+					b1 = list[lo:hi]
+				}
+				c14Case(o, "bulk-collision", which, false, w1, b1, probeBytes(k))
+				found++
+			}
+		}
+		// and every listed key is decided as listed (a sample)
+		for i := 0; i < 2000; i++ {
+			e := list[rng.Intn(len(list))]
+			var k []byte
+			if which == 1 {
+				k, _ = hex.DecodeString(e)
+			} else {
+				k = []byte(e)
+			}
+			if verdict(h, k) != white {
+				var w1, b1 []string
+				if white {
+					w1 = []string{e}
+				} else {
+					b1 = []string{e}
+				}
+				c14Case(o, "bulk-listed", which, false, w1, b1, probeBytes(k))
+				break
+			}
+		}
+	}
+	o.notes[fmt.Sprintf("bulk_%d", which)] = map[string]interface{}{"listed": nl, "probes": np, "wrong_verdicts": found}
+}
+
+func firstOf(l []string) []string {
+	if len(l) == 0 {
+		return l
+	}
+	return l[:1]
 }
